@@ -176,6 +176,12 @@ fn handle(line: &str) -> String {
             let s = midi::dump_midi(&r.bin, false);
             format!("ok bin={} text={}", hex(&r.bin), hex(s.as_bytes()))
         }
+        "compile2" => {
+            // two sources, both compiled by the library entry point: bins + logs
+            let r1 = sakuramml::compile(&unhex_s(a[1]), 0);
+            let r2 = sakuramml::compile(&unhex_s(a[2]), 0);
+            format!("ok bin1={} bin2={} log1={} log2={}", hex(&r1.bin), hex(&r2.bin), hex(r1.log.as_bytes()), hex(r2.log.as_bytes()))
+        }
         "convert" => {
             let s = sutoton::convert(&unhex_s(a[1]));
             format!("ok out={}", hex(s.as_bytes()))
